@@ -22,7 +22,7 @@
                               inserted in another order). *)
 From Coq Require Import List NArith ZArith Bool Permutation.
 From SK Require Import lib.LGraph model.C01_Model model.C02_Model model.C09_Model
-  proof.C09_Canon proof.C09_Valid proof.C09_Balance proof.C09_Main proof.C09_Indep proof.C09_Indep2.
+  proof.C09_Canon proof.C09_Valid proof.C09_Balance proof.C09_Main proof.C09_Indep proof.C09_Indep2 proof.C09_ValidRC.
 Import ListNotations.
 
 (** 1. Canonicalising = relabelling both sides by ONE injective map f (canonical position on the reactant atoms, fresh
@@ -133,8 +133,8 @@ Theorem C09_validator_exact : forall G1 H1 G2 H2 : mgraph, wf G2 -> wf H2 ->
 Proof. exact validator_exact. Qed.
 Print Assumptions C09_validator_exact.
 
-(** every renumbering of a mapping is accepted (third clause: also with re-ordered atoms and rewritten atom_map
-    attributes, as the parser of the renumbered string delivers them; ITS method) *)
+(** every renumbering of a mapping is accepted, by both methods, also with re-ordered atoms and rewritten atom_map
+    attributes, as the parser of the renumbered string delivers them ([relabelled_by f G G'], [set_amap]) *)
 Theorem C09_validator_renumbering : forall (f : N -> N) (G H : mgraph),
   (forall a b, f a = f b -> a = b) -> wf G -> wf H ->
   smiles_check_its (relabel f G) (relabel f H) G H = true /\
@@ -142,6 +142,12 @@ Theorem C09_validator_renumbering : forall (f : N -> N) (G H : mgraph),
   (forall G' H', relabelled_by f G G' -> relabelled_by f H H' -> smiles_check_its (set_amap G') (set_amap H') G H = true).
 Proof. exact validator_renumbering. Qed.
 Print Assumptions C09_validator_renumbering.
+
+Theorem C09_validator_renumbering_rc : forall (f : N -> N) (G H G' H' : mgraph),
+  (forall a b, f a = f b -> a = b) -> wf G -> wf H ->
+  relabelled_by f G G' -> relabelled_by f H H' -> smiles_check_rc (set_amap G') (set_amap H') G H = true.
+Proof. exact validator_renumbering_rc. Qed.
+Print Assumptions C09_validator_renumbering_rc.
 
 (** a mapping in which the product-side numbers of two atoms x, y are transposed is rejected whenever it is not
     equivalent to the reference, i.e. whenever x and y are not interchangeable: no isomorphism between the swapped
